@@ -31,7 +31,7 @@ func init() {
 		ID:    "C10",
 		Level: "exploration",
 		Race:  true,
-		Rule: "one run = one template (drawn) + one generated per-task behaviour + one seeded schedule; executed natively and interpreted from the same choice list. " +
+		Rule: "one run = one of 7 templates (drawn: fan-out, pipeline, channel-operation soup checked by the channel model, closures shared under a lock, time-outs, every select shape, sync primitives and go-statement argument evaluation) + one generated per-task behaviour + one seeded schedule; executed natively and interpreted from the same choice list. " +
 			"non-trivial = at least 2 tasks and at least 1 context switch in the interpreted run; distinct = distinct (template, schedule hash = sequence of (task, yield site, quantum) decisions, interpreted event log)",
 		Runs: func(tier string) int {
 			if tier == "thorough" {
@@ -53,7 +53,8 @@ func init() {
 			"real: native twin = the same template source compiled by the Go toolchain",
 			"stub: which goroutine runs next (seeded parking scheduler inside a testing/synctest bubble)",
 			"stub: wall clock (synctest fake clock)",
-			"stub: sync.Mutex.Lock (TryLock + yield loop in a compiled helper)",
+			"stub: sync.Mutex.Lock (TryLock + yield loop in a compiled helper); the locker handed to sync.NewCond and the readers/writer lock (hook.Mutex, hook.RWMutex: same state machine, waiters park in the scheduler)",
+			"real: sync/atomic on captured variables, sync.Cond, sync.Once, sync.WaitGroup, context cancellation and deadlines, time.Timer / Ticker / AfterFunc on the fake clock",
 		},
 		Assumptions: []string{
 			"interleavings are explored at statement granularity (interpreter) / communication granularity (lockstep); finer preemption is only race-detected",
